@@ -278,10 +278,12 @@ func (nd *KVNode) setnxCommand(cmd redcon.Command) (interface{}, error) {
 	if err != nil {
 		return nil, err
 	}
-	ex, _ := nd.store.KVExists(key)
-	if ex == 1 {
-		// already exist
-		return int64(0), nil
+	if nd.isLocalStoreCurrent() {
+		ex, _ := nd.store.KVExists(key)
+		if ex == 1 {
+			// already exist
+			return int64(0), nil
+		}
 	}
 
 	rsp, err := rebuildFirstKeyAndPropose(nd, cmd, nil)
@@ -307,13 +309,15 @@ func (nd *KVNode) setIfEQCommand(cmd redcon.Command) (interface{}, error) {
 	if err != nil {
 		return nil, err
 	}
-	oldv, err := nd.store.KVGet(key)
-	if err != nil {
-		return int64(0), err
-	}
-	if !bytes.Equal(oldv, cmd.Args[2]) {
-		// old value not matched
-		return int64(0), nil
+	if nd.isLocalStoreCurrent() {
+		oldv, err := nd.store.KVGet(key)
+		if err != nil {
+			return int64(0), err
+		}
+		if !bytes.Equal(oldv, cmd.Args[2]) {
+			// old value not matched
+			return int64(0), nil
+		}
 	}
 
 	rsp, err := rebuildFirstKeyAndPropose(nd, cmd, nil)
@@ -332,13 +336,15 @@ func (nd *KVNode) delIfEQCommand(cmd redcon.Command) (interface{}, error) {
 	if err != nil {
 		return nil, err
 	}
-	oldv, err := nd.store.KVGet(key)
-	if err != nil {
-		return int64(0), err
-	}
-	if !bytes.Equal(oldv, cmd.Args[2]) {
-		// old value not matched
-		return int64(0), nil
+	if nd.isLocalStoreCurrent() {
+		oldv, err := nd.store.KVGet(key)
+		if err != nil {
+			return int64(0), err
+		}
+		if !bytes.Equal(oldv, cmd.Args[2]) {
+			// old value not matched
+			return int64(0), nil
+		}
 	}
 
 	rsp, err := rebuildFirstKeyAndPropose(nd, cmd, nil)
